@@ -84,3 +84,4 @@ pub mod c34;
 pub mod c31;
 pub mod c09;
 pub mod c28;
+pub mod c14;
